@@ -40,6 +40,7 @@ type ctxKey struct {
 	fn   *ssa.Function
 	held string
 	virt bool
+	env  string // functions bound to function-typed parameters (callback context)
 }
 
 type summary struct {
@@ -102,6 +103,11 @@ type analyzer struct {
 	infeasibleUsed map[int]bool
 	leaks          map[string]string // function|class -> where (functions that return holding a lock they took)
 	knownLeaks     map[string]bool
+	pub            *pubState
+	onceUsed       map[int]bool
+	traceMemo      map[*ssa.Function][][]pubEvent
+	traceBusy      map[*ssa.Function]bool
+	traceRaw       map[*ssa.Function][][]pubEvent
 	record         bool // discipline facts are recorded in this pass
 	contexts       int
 	notes          map[string]int
@@ -124,7 +130,7 @@ func newAnalyzer(prog *ssa.Program, cg *callgraph.Graph, cfg *config, repo strin
 		canReach: map[*ssa.Function]bool{}, siteSeen: map[token.Pos]bool{},
 		memo: map[ctxKey]*summary{}, edges: map[[2]int]*edgeWitness{}, unres: map[string]string{},
 		accesses: map[string]*accessRec{}, guardedOK: map[string]bool{}, notes: map[string]int{},
-		structs: map[*types.Named]*structInfo{}, fieldInfo: map[string]*fieldFacts{},
+		structs: map[*types.Named]*structInfo{}, fieldInfo: map[string]*fieldFacts{}, onceUsed: map[int]bool{}, traceMemo: map[*ssa.Function][][]pubEvent{}, traceBusy: map[*ssa.Function]bool{}, traceRaw: map[*ssa.Function][][]pubEvent{},
 		leaks: map[string]string{}, knownLeaks: map[string]bool{}, infeasibleUsed: map[int]bool{}}
 }
 
@@ -472,6 +478,7 @@ func (a *analyzer) prepare() {
 		}
 		a.callees[site] = out
 	}
+	a.preparePub()
 	interesting := map[*ssa.Function]bool{}
 	for fn := range ssautil.AllFunctions(a.prog) {
 		for _, b := range fn.Blocks {
@@ -504,6 +511,9 @@ func (a *analyzer) prepare() {
 					if f, _, _ := a.guardedField(x.X.Type(), x.Field); f != "" {
 						interesting[fn] = true
 					}
+					if _, owner := structOf(x.X.Type()); owner != nil && a.pub.pubTypes[owner.Origin()] {
+						interesting[fn] = true
+					}
 				case *ssa.Field:
 					if f, _, _ := a.guardedField(x.X.Type(), x.Field); f != "" {
 						interesting[fn] = true
@@ -533,6 +543,7 @@ func (a *analyzer) prepare() {
 			}
 		}
 	}
+	a.computePubReach()
 	a.computeStdCallable()
 	a.notes["interesting_functions"] = len(interesting)
 	a.notes["functions_reaching_a_lock_or_guarded_field"] = len(a.canReach)
@@ -636,14 +647,32 @@ func (a *analyzer) exemptFunc(fn *ssa.Function) bool {
 	return ok
 }
 
-func (a *analyzer) analyze(fn *ssa.Function, held []heldItem, virt bool, chain *chainNode) [][]heldItem {
+func (a *analyzer) analyze(fn *ssa.Function, held []heldItem, virt bool, chain *chainNode, env bindEnv) [][]heldItem {
 	if fn == nil || len(fn.Blocks) == 0 {
 		return [][]heldItem{held}
 	}
 	if a.exemptFunc(fn) {
 		virt = true
 	}
-	key := ctxKey{fn, heldKey(held), virt}
+	// reviewed path condition: fn does nothing unless the listed types are still unpublished
+	var unpub []heldItem
+	held, unpub = a.onceGuard(fn, held)
+	if len(unpub) > 0 {
+		exits := a.analyze0(fn, held, virt, chain, env)
+		out := make([][]heldItem, 0, len(exits))
+		for _, e := range exits {
+			for _, m := range unpub {
+				e = addPseudo(e, m)
+			}
+			out = append(out, e)
+		}
+		return out
+	}
+	return a.analyze0(fn, held, virt, chain, env)
+}
+
+func (a *analyzer) analyze0(fn *ssa.Function, held []heldItem, virt bool, chain *chainNode, env bindEnv) [][]heldItem {
+	key := ctxKey{fn, heldKey(held), virt, env.key()}
 	if s, ok := a.memo[key]; ok {
 		if s.done {
 			return s.exits
@@ -653,6 +682,12 @@ func (a *analyzer) analyze(fn *ssa.Function, held []heldItem, virt bool, chain *
 	sum := &summary{}
 	a.memo[key] = sum
 	a.contexts++
+	if a.record && a.pub != nil {
+		if a.pub.entryPubs[fn] == nil {
+			a.pub.entryPubs[fn] = map[string]bool{}
+		}
+		a.pub.entryPubs[fn][a.pubsetKey(held)] = true
+	}
 
 	nb := len(fn.Blocks)
 	in := make([]map[string]state, nb)
@@ -681,7 +716,7 @@ func (a *analyzer) analyze(fn *ssa.Function, held []heldItem, virt bool, chain *
 			cur := []state{in[bi][k]}
 			returned := false
 			for _, ins := range b.Instrs {
-				cur = a.step(fn, ins, cur, virt, chain)
+				cur = a.step(fn, ins, cur, virt, chain, env)
 				if len(cur) == 0 {
 					break
 				}
@@ -715,6 +750,9 @@ func (a *analyzer) analyze(fn *ssa.Function, held []heldItem, virt bool, chain *
 	for _, e := range sum.exits {
 		leaked := -1
 		for _, h := range e {
+			if a.pseudo(h.class) {
+				continue
+			}
 			n0, n1 := 0, 0
 			for _, x := range held {
 				if x.class == h.class {
@@ -767,10 +805,10 @@ func dedupStates(sts []state) []state {
 	return out
 }
 
-func (a *analyzer) step(fn *ssa.Function, ins ssa.Instruction, cur []state, virt bool, chain *chainNode) []state {
+func (a *analyzer) step(fn *ssa.Function, ins ssa.Instruction, cur []state, virt bool, chain *chainNode, env bindEnv) []state {
 	switch x := ins.(type) {
 	case *ssa.Call:
-		return a.doCall(fn, x, cur, virt, chain, "call")
+		return a.doCall(fn, x, cur, virt, chain, "call", env)
 	case *ssa.Defer:
 		out := make([]state, 0, len(cur))
 		for _, s := range cur {
@@ -794,25 +832,38 @@ func (a *analyzer) step(fn *ssa.Function, ins ssa.Instruction, cur []state, virt
 		for _, s := range cur {
 			sts := []state{{held: s.held}}
 			for i := len(s.defers) - 1; i >= 0; i-- {
-				sts = a.doCall(fn, s.defers[i], sts, virt, chain, "defer")
+				sts = a.doCall(fn, s.defers[i], sts, virt, chain, "defer", env)
 			}
 			out = append(out, sts...)
 		}
 		return dedupStates(out)
 	case *ssa.Go:
-		for _, callee := range a.callees[x] {
+		entry := a.goEntry(x)
+		goCallees := a.callees[x]
+		if bound := env.resolve(x.Call.Value); bound != nil {
+			goCallees = []*ssa.Function{bound}
+		}
+		for _, callee := range goCallees {
 			if a.canReach[callee] {
-				a.analyze(callee, nil, false, &chainNode{parent: chain, fn: callee, site: x.Pos(), kind: "go"})
+				a.analyze(callee, entry, false, &chainNode{parent: chain, fn: callee, site: x.Pos(), kind: "go"}, bindArgs(callee, &x.Call, env))
 			}
 		}
 		// "go mu.Lock()" and the like are not modelled
-		return cur
+		return a.publish(fn, x.Pos(), a.pub.sites[x], cur)
+	case *ssa.Send:
+		return a.publish(fn, x.Pos(), a.pub.sites[x], cur)
+	case *ssa.MapUpdate:
+		return a.publishUnderLock(fn, x, x.Pos(), cur)
+	case *ssa.Store:
+		return a.publishUnderLock(fn, x, x.Pos(), cur)
 	case *ssa.Panic:
 		return nil
 	case *ssa.FieldAddr:
 		a.access(fn, x, x.X.Type(), x.Field, x.Pos(), cur, virt, chain)
+		a.pubAccess(fn, x, x.X.Type(), x.Field, x.Pos(), cur, virt, chain)
 	case *ssa.Field:
 		a.access(fn, x, x.X.Type(), x.Field, x.Pos(), cur, virt, chain)
+		a.pubAccess(fn, x, x.X.Type(), x.Field, x.Pos(), cur, virt, chain)
 	}
 	return cur
 }
@@ -879,6 +930,9 @@ func (f *fieldFacts) guardedInferred() bool { return f.forced || (f.heldSeen && 
 
 func (a *analyzer) acquire(fn *ssa.Function, class int, pos token.Pos, s state, chain *chainNode) state {
 	for _, h := range s.held {
+		if a.pseudo(h.class) {
+			continue
+		}
 		k := [2]int{h.class, class}
 		if _, ok := a.edges[k]; !ok {
 			a.edges[k] = &edgeWitness{from: h.class, to: class, heldAt: h, chain: chain, pos: pos, fn: fn}
@@ -887,7 +941,17 @@ func (a *analyzer) acquire(fn *ssa.Function, class int, pos token.Pos, s state, 
 	return state{held: addHeld(s.held, heldItem{class: class, pos: pos, fn: fn}), defers: s.defers}
 }
 
-func (a *analyzer) doCall(fn *ssa.Function, ins ssa.CallInstruction, cur []state, virt bool, chain *chainNode, kind string) []state {
+func (a *analyzer) doCall(fn *ssa.Function, ins ssa.CallInstruction, cur []state, virt bool, chain *chainNode, kind string, env bindEnv) []state {
+	out := a.doCall0(fn, ins, cur, virt, chain, kind, env)
+	if ts, ok := a.pub.sites[ins]; ok {
+		if _, isGo := ins.(*ssa.Go); !isGo {
+			out = a.publish(fn, ins.Pos(), ts, out)
+		}
+	}
+	return out
+}
+
+func (a *analyzer) doCall0(fn *ssa.Function, ins ssa.CallInstruction, cur []state, virt bool, chain *chainNode, kind string, env bindEnv) []state {
 	common := ins.Common()
 	sc := common.StaticCallee()
 	switch op := lockOp(sc); op {
@@ -951,7 +1015,7 @@ func (a *analyzer) doCall(fn *ssa.Function, ins ssa.CallInstruction, cur []state
 					s1 = a.acquire(fn, class, ins.Pos(), s, chain)
 				}
 				for _, f := range fs {
-					a.analyze(f, s1.held, virt, &chainNode{parent: chain, fn: f, site: ins.Pos(), kind: "once"})
+					a.analyze(f, s1.held, virt, &chainNode{parent: chain, fn: f, site: ins.Pos(), kind: "once"}, nil)
 				}
 				out = append(out, s) // released when Do returns
 			}
@@ -960,6 +1024,9 @@ func (a *analyzer) doCall(fn *ssa.Function, ins ssa.CallInstruction, cur []state
 	}
 
 	all := a.callees[ins]
+	if bound := env.resolve(common.Value); bound != nil {
+		all = []*ssa.Function{bound} // the function value is the one this activation was given
+	}
 	var reach []*ssa.Function
 	untracked := len(all) == 0
 	for _, c := range all {
@@ -997,8 +1064,40 @@ func (a *analyzer) doCall(fn *ssa.Function, ins ssa.CallInstruction, cur []state
 				out = append(out, s)
 				continue
 			}
-			exits := a.analyze(c, s.held, virt, &chainNode{parent: chain, fn: c, site: ins.Pos(), kind: kind})
+			entry := s.held
+			// publication markers are only carried through code that can touch the published types
+			var stripped []heldItem
+			crossing := len(a.pub.consumer) > 0 && a.isConsumerPkg(fnPkgPath(fn)) && !a.isConsumerPkg(fnPkgPath(c)) && !holds(s.held, a.pub.ctxClass)
+			if crossing {
+				// from a consumer package (logic) into a session / connection package: accesses below are foreign
+				entry = addPseudo(s.held, heldItem{class: a.pub.ctxClass, pos: ins.Pos(), fn: fn})
+			}
+			entry, stripped = a.stripMarkers(entry, c)
+			// the first method of a published type entered below a consumer package names the
+			// object through which the foreign goroutine reaches what it touches
+			viaClass := -1
+			if holds(entry, a.pub.ctxClass) && !a.hasKind(entry, kindVia) {
+				if r := a.receiverPubType(c); r != nil {
+					viaClass = a.classOf("via:"+namedName(r), kindVia)
+					entry = addPseudo(entry, heldItem{class: viaClass, pos: ins.Pos(), fn: fn})
+				}
+			}
+			exits := a.analyze(c, entry, virt, &chainNode{parent: chain, fn: c, site: ins.Pos(), kind: kind}, bindArgs(c, common, env))
 			for _, e := range exits {
+				if crossing {
+					e, _ = delHeld(e, a.pub.ctxClass)
+				}
+				if viaClass >= 0 {
+					e, _ = delHeld(e, viaClass)
+				}
+				if a.isConsumerPkg(fnPkgPath(c)) {
+					// what a consumer package constructs and publishes on this goroutine is its own business:
+					// its later accesses are foreign accesses, not writes of the constructing session code
+					e = a.dropNewMarkers(e, entry)
+				}
+				for _, m := range stripped {
+					e = addPseudo(e, m)
+				}
 				out = append(out, state{held: rebase(s.held, e), defers: s.defers})
 			}
 		}
@@ -1067,9 +1166,12 @@ func (a *analyzer) callbacks(fn *ssa.Function, ins ssa.CallInstruction, callees 
 				continue
 			}
 			if async {
-				a.analyze(f, nil, false, &chainNode{parent: chain, fn: f, site: ins.Pos(), kind: "go"})
+				a.analyze(f, nil, false, &chainNode{parent: chain, fn: f, site: ins.Pos(), kind: "go"}, nil)
 			} else {
-				a.analyze(f, s.held, virt, &chainNode{parent: chain, fn: f, site: ins.Pos(), kind: "callback via " + shortName(name)})
+				// which object the standard library really calls back is a guess (any lal / naza type with a
+				// matching method): good enough for the lock order, too coarse for the publication facts
+				h := addPseudo(s.held, heldItem{class: a.classOf("std:guessed callback", kindStd), pos: ins.Pos(), fn: fn})
+				a.analyze(f, h, virt, &chainNode{parent: chain, fn: f, site: ins.Pos(), kind: "callback via " + shortName(name)}, nil)
 			}
 		}
 	}
@@ -1307,7 +1409,7 @@ func (a *analyzer) run() {
 	for _, fn := range fns {
 		if ok, why := isEntry(fn); ok {
 			nEntry++
-			a.analyze(fn, nil, false, &chainNode{fn: fn, kind: "root:" + why})
+			a.analyze(fn, nil, false, &chainNode{fn: fn, kind: "root:" + why}, nil)
 		}
 	}
 	// go targets outside the tracked modules that reach tracked code
@@ -1320,7 +1422,7 @@ func (a *analyzer) run() {
 	sort.Slice(others, func(i, j int) bool { return others[i].String() < others[j].String() })
 	for _, fn := range others {
 		nEntry++
-		a.analyze(fn, nil, false, &chainNode{fn: fn, kind: "root:go"})
+		a.analyze(fn, nil, false, &chainNode{fn: fn, kind: "root:go"}, nil)
 	}
 	a.notes["entry_points"] = nEntry
 
@@ -1328,9 +1430,93 @@ func (a *analyzer) run() {
 	// lock held - only adds lock-order edges (a superset is harmless there).
 	a.record = false
 	for _, fn := range fns {
-		a.analyze(fn, nil, false, &chainNode{fn: fn, kind: "root:any"})
+		a.analyze(fn, nil, false, &chainNode{fn: fn, kind: "root:any"}, nil)
 	}
 	if len(os.Getenv("LOCKGRAPH_DEBUG")) > 0 {
+		cnt := map[string]int{}
+		for k := range a.memo {
+			var l []string
+			for _, idstr := range strings.Split(k.held, ",") {
+				var id int
+				if _, err := fmt.Sscanf(idstr, "%d", &id); err == nil && a.pseudo(id) {
+					l = append(l, a.classNames[id])
+				}
+			}
+			cnt[strings.Join(l, " ")]++
+		}
+		var ks []string
+		for k, v := range cnt {
+			ks = append(ks, fmt.Sprintf("%6d %s", v, k))
+		}
+		sort.Strings(ks)
+		fmt.Fprintf(os.Stderr, "%s\n", strings.Join(ks, "\n"))
 		fmt.Fprintf(os.Stderr, "contexts=%d\n", a.contexts)
 	}
+}
+
+// bindEnv: the functions bound to the function-typed parameters of the current
+// activation (ChunkComposer.RunLoop(reader, s.doMsg): inside, cb() is s.doMsg and
+// not every callback that is ever passed to RunLoop)
+type bindEnv map[*ssa.Parameter]*ssa.Function
+
+func (e bindEnv) key() string {
+	if len(e) == 0 {
+		return ""
+	}
+	l := make([]string, 0, len(e))
+	for p, f := range e {
+		l = append(l, fmt.Sprintf("%s=%p", p.Name(), f))
+	}
+	sort.Strings(l)
+	return strings.Join(l, ",")
+}
+
+func (e bindEnv) resolve(v ssa.Value) *ssa.Function {
+	if p, ok := v.(*ssa.Parameter); ok && e != nil {
+		return e[p]
+	}
+	return nil
+}
+
+func bindArgs(callee *ssa.Function, com *ssa.CallCommon, env bindEnv) bindEnv {
+	if callee == nil || len(callee.Params) == 0 {
+		return nil
+	}
+	off := 0
+	if com.IsInvoke() {
+		off = 1
+	}
+	var out bindEnv
+	for i, arg := range com.Args {
+		if i+off >= len(callee.Params) {
+			break
+		}
+		var f *ssa.Function
+		for {
+			ct, ok := arg.(*ssa.ChangeType) // method value converted to a named func type
+			if !ok {
+				break
+			}
+			arg = ct.X
+		}
+		switch x := arg.(type) {
+		case *ssa.MakeClosure:
+			f, _ = x.Fn.(*ssa.Function)
+		case *ssa.Function:
+			f = x
+		case *ssa.Parameter:
+			f = env.resolve(x)
+		}
+		if f == nil {
+			continue
+		}
+		if _, isFunc := callee.Params[i+off].Type().Underlying().(*types.Signature); !isFunc {
+			continue
+		}
+		if out == nil {
+			out = bindEnv{}
+		}
+		out[callee.Params[i+off]] = f
+	}
+	return out
 }
